@@ -893,6 +893,15 @@ Section UniversalProofs.
   Definition first_byte (s0 : S) : option N :=
     snd (b_peek1 S step (fresh S {| rs_src := s0; rs_tr := [] |})).
 
+  Lemma cte_after_copy_not_panic (T : Type) (x : rst T * ures) st o :
+    cte_after_copy T sh parse false x = (st, o) -> o <> Panic.
+  Proof.
+    destruct x as [st0 u]. unfold cte_after_copy. destruct u as [e text|].
+    - destruct (err_at sh RCteCopy e); intro H; inversion H; subst; try discriminate.
+      apply guard_not_panic. destruct Hss; assumption.
+    - intro H. inversion H; subst. discriminate.
+  Qed.
+
   Lemma universal_never_panics unm fuel s0 d u' o :
     universal S step sh D dnext dfeed dfinal parse unm true false fuel {| rs_src := s0; rs_tr := [] |} d = (u', o) ->
     o <> Panic.
@@ -900,13 +909,11 @@ Section UniversalProofs.
     unfold universal.
     destruct (b_peek1 S step _) as [b1 first]. destruct first as [x|].
     - destruct (choose x).
-      + destruct (b_writeto S step fuel b1) as [b2 r]. unfold cte_after_copy.
-        destruct r as [e text|].
-        * destruct (err_at sh RCteCopy e) eqn:Ee; intro H; inversion H; subst; destruct unm;
-            try discriminate; repeat (apply guard_not_panic; destruct Hss; try assumption);
-            try (destruct (parse text); cbn; rewrite ?ss_gtd by exact Hss; discriminate).
-          -- destruct (parse text); cbn; [discriminate|]. rewrite (ss_gtd sh Hss). cbn. rewrite (ss_gtu sh Hss). discriminate.
-        * intro H; inversion H; subst; destruct unm; discriminate.
+      + destruct (b_writeto S step fuel b1) as [b2 r].
+        destruct (cte_after_copy (bst S) sh parse false _) as [st1 o1] eqn:Ea.
+        apply cte_after_copy_not_panic in Ea.
+        intro H. inversion H; subst. destruct unm; [|exact Ea].
+        apply guard_not_panic. destruct Hss; assumption.
       + destruct unm.
         * unfold cbe_unmarshal. destruct (cbe_decode _ _ _ _ _ _ _ _ _ _ _) as [st1 o1].
           intro H. inversion H; subst. apply guard_not_panic. destruct Hss; assumption.
@@ -961,3 +968,235 @@ Section UniversalProofs.
     - destruct (chk sh _); intros H Ho; inversion H; subst; discriminate.
   Qed.
 End UniversalProofs.
+
+(* ========================================================================= *)
+(* Statements in the form used by Props/C29.v *)
+
+Lemma write_marshal_reported :
+  forall (W : Type) (wstep : W -> wcall -> W * bool) (sh : shape) (f : wfmt) (sw : bool) (w0 : W)
+         (evs : list (list lwrite)) st' o,
+    all_checked_but_uleb sh = true ->
+    marshal W wstep sh f sw false {| ws_w := w0; ws_tr := [] |} evs = (st', o) ->
+    (Exists wfailed (ws_tr st') -> o = Err) /\ (Forall wclean (ws_tr st') -> o = Ok tt).
+Proof.
+  intros W wstep sh f sw w0 evs st' o Hsh H.
+  pose proof (shape_sound_of_but_uleb sh Hsh) as Hss.
+  eapply marshal_reports in H; [|apply wsites_of_sound; exact Hss|destruct Hss, f; assumption].
+  destruct H as (tr & Et & H1 & H2). cbn in Et. rewrite app_nil_r in Et. rewrite Et. split; assumption.
+Qed.
+
+Lemma write_encoder_reported :
+  forall (W : Type) (wstep : W -> wcall -> W * bool) (sh : shape) (f : wfmt) (sw : bool) (w0 : W)
+         (evs : list (list lwrite)) st' o,
+    all_checked_but_uleb sh = true ->
+    feed_events W wstep sh f sw {| ws_w := w0; ws_tr := [] |} evs 0 = (st', o) ->
+    (Exists wfailed (ws_tr st') -> exists i, o = EncPanicAt i /\ i < N.of_nat (length evs)) /\
+    (Forall wclean (ws_tr st') -> o = EncDone).
+Proof.
+  intros W wstep sh f sw w0 evs st' o Hsh H.
+  pose proof (shape_sound_of_but_uleb sh Hsh) as Hss.
+  eapply encoder_reports in H; [|apply wsites_of_sound; exact Hss].
+  destruct H as (tr & Et & H1 & H2). cbn in Et. rewrite app_nil_r in Et. rewrite Et. split; assumption.
+Qed.
+
+Lemma write_failure_schedule_reported :
+  forall (sh : shape) (f : wfmt) (sw : bool) (sc : wsched) (k : N) (evs : list (list lwrite)),
+    all_checked_but_uleb sh = true ->
+    mem_N k (wsc_calls sc) = true -> k < total_writes evs ->
+    snd (marshal wdest (sched_wstep sc) sh f sw false {| ws_w := wdest0; ws_tr := [] |} evs) = Err.
+Proof.
+  intros sh f sw sc k evs Hsh Hk Hlt.
+  pose proof (shape_sound_of_but_uleb sh Hsh) as Hss.
+  apply (write_failure_at_k_reported sh f sw sc k evs); auto.
+  - apply wsites_of_sound; exact Hss.
+  - destruct Hss, f; assumption.
+Qed.
+
+Definition rd0 {S} (s0 : S) : rst S := {| rs_src := s0; rs_tr := [] |}.
+
+Lemma read_cbe_partial :
+  forall (S : Type) (step : S -> N -> S * rres) (sh : shape) (D : Type) (dnext : D -> action)
+         (dfeed : D -> bytes -> D) (dfinal : D -> bool) (unm : bool) (fuel : nat) (s0 : S) (d : D) st' o,
+    all_checked_but_uleb sh = true ->
+    (if unm then cbe_unmarshal S step sh D dnext dfeed dfinal true false fuel (rd0 s0) d
+     else cbe_decode S step sh D dnext dfeed dfinal false fuel (rd0 s0) d) = (st', o) ->
+    Exists fatal (rs_tr st') -> o = Err.
+Proof.
+  intros S step sh D dnext dfeed dfinal unm fuel s0 d st' o Hsh H Hex.
+  destruct (outcome_err_dec o) as [E|Hn]; [exact E|exfalso].
+  eapply ok_events_no_fatal; [|exact Hex].
+  destruct unm; [eapply cbe_unmarshal_ok_events | eapply cbe_decode_ok_events]; eauto.
+Qed.
+
+Lemma read_cbe_full_if_checked :
+  forall (S : Type) (step : S -> N -> S * rres) (sh : shape) (D : Type) (dnext : D -> action)
+         (dfeed : D -> bytes -> D) (dfinal : D -> bool) (unm : bool) (fuel : nat) (s0 : S) (d : D) st' o,
+    all_checked sh = true ->
+    (if unm then cbe_unmarshal S step sh D dnext dfeed dfinal true false fuel (rd0 s0) d
+     else cbe_decode S step sh D dnext dfeed dfinal false fuel (rd0 s0) d) = (st', o) ->
+    Exists hard (rs_tr st') -> o = Err.
+Proof.
+  intros S step sh D dnext dfeed dfinal unm fuel s0 d st' o Hsh H Hex.
+  pose proof (all_checked_but_uleb_of_all sh Hsh) as Hb.
+  destruct (outcome_err_dec o) as [E|Hn]; [exact E|exfalso].
+  eapply ok_events_no_hard; [apply all_checked_uleb; exact Hsh | | exact Hex].
+  destruct unm; [eapply cbe_unmarshal_ok_events | eapply cbe_decode_ok_events]; eauto.
+Qed.
+
+Lemma read_cte_full :
+  forall (S : Type) (step : S -> N -> S * rres) (sh : shape) (parse : bytes -> bool)
+         (unm : bool) (fuel : nat) (s0 : S) st' o,
+    all_checked_but_uleb sh = true ->
+    (if unm then cte_unmarshal S step sh parse true false fuel (rd0 s0)
+     else cte_decode S step sh parse false fuel (rd0 s0)) = (st', o) ->
+    Exists hard (rs_tr st') -> o = Err.
+Proof.
+  intros S step sh parse unm fuel s0 st' o Hsh H Hex.
+  destruct (outcome_err_dec o) as [E|Hn]; [exact E|exfalso].
+  assert (Hok : Forall (ok_event sh) (rs_tr st') /\ Forall (fun ev => re_site ev <> RUlebCont) (rs_tr st')).
+  { destruct unm.
+    - split; [eapply cte_unmarshal_no_failure; eauto|].
+      unfold cte_unmarshal in H. destruct (cte_decode S step sh parse false fuel (rd0 s0)) as [st1 o1] eqn:Ed.
+      inversion H; subst. eapply cte_decode_sites; exact Ed.
+    - split; [eapply cte_decode_no_failure; eauto | eapply cte_decode_sites; exact H]. }
+  destruct Hok as [Hok Hs]. apply Exists_exists in Hex. destruct Hex as (ev & Hin & Hh).
+  rewrite Forall_forall in Hok, Hs. destruct (Hok ev Hin Hh) as (_ & Hsite & _). exact (Hs ev Hin Hsite).
+Qed.
+
+Lemma read_universal_cbe :
+  forall (S : Type) (step : S -> N -> S * rres) (sh : shape) (D : Type) (dnext : D -> action)
+         (dfeed : D -> bytes -> D) (dfinal : D -> bool) (parse : bytes -> bool)
+         (unm : bool) (fuel : nat) (s0 : S) (d : D) (x : N) u' o,
+    all_checked_but_uleb sh = true ->
+    first_byte S step s0 = Some x -> choose x = UCbe ->
+    universal S step sh D dnext dfeed dfinal parse unm true false fuel (rd0 s0) d = (u', o) ->
+    Exists hard (rs_tr u') -> o <> Ok tt /\ o <> Panic.
+Proof.
+  intros S step sh D dnext dfeed dfinal parse unm fuel s0 d x u' o Hsh Hf Hc H Hex. split.
+  - intro Ho. eapply nothard_no_exists; [|exact Hex]. eapply universal_cbe_ok; eauto.
+  - eapply universal_never_panics; eauto.
+Qed.
+
+Lemma read_universal_clean :
+  forall (S : Type) (step : S -> N -> S * rres) (sh : shape) (D : Type) (dnext : D -> action)
+         (dfeed : D -> bytes -> D) (dfinal : D -> bool) (parse : bytes -> bool)
+         (unm : bool) (fuel : nat) (s0 : S) (d : D) u' o,
+    all_checked_but_uleb sh = true ->
+    clean_source S step ->
+    universal S step sh D dnext dfeed dfinal parse unm true false fuel (rd0 s0) d = (u', o) ->
+    Exists hard (rs_tr u') -> o <> Ok tt /\ o <> Panic.
+Proof.
+  intros S step sh D dnext dfeed dfinal parse unm fuel s0 d u' o Hsh Hcl H Hex. split.
+  - intro Ho. eapply nothard_no_exists; [|exact Hex]. eapply universal_clean_ok; eauto.
+  - eapply universal_never_panics; eauto.
+Qed.
+
+(* ------------------------------------------------------------------------- *)
+(* Witnesses of the defects (computed on the model with the current shape and a scheduled reader) *)
+
+Definition wit_sched (k : N) : rsched := {| rsc_chunk := 0; rsc_faults := [{| f_call := k; f_dirty := true |}]; rsc_sticky := false |}.
+Definition wit_cbe_doc : bytes := [129; 128; 128; 0; 1].          (* 81 80 80 00 01: version as a 3-byte ULEB, then the value 1 *)
+Definition wit_cbe_script : list prim := [PUint8; PUleb; PTypeOrEOF; PTypeOrEOF].
+Definition wit_cte_doc : bytes := [99; 48; 32; 49].               (* "c0 1" *)
+
+(* the third Read returns the byte 0x80 of the ULEB together with an error; the decoder reports success *)
+Lemma cbe_swallow_witness :
+  let '(st, o) := cbe_decode rsrc (sched_rstep (wit_sched 2)) current_shape (list prim) script_next script_feed
+                    (fun _ => true) false 100 (rd0 (rsrc0 wit_cbe_doc)) wit_cbe_script in
+  o = Ok tt /\ Exists hard (rs_tr st).
+Proof.
+  vm_compute. split; [reflexivity|]. do 3 right. left. reflexivity.
+Qed.
+
+(* the first Read returns the whole CTE document together with an error; UnmarshalCE / Decode report success *)
+Lemma universal_cte_swallow_witness unm :
+  let '(u, o) := universal rsrc (sched_rstep (wit_sched 0)) current_shape (list prim) script_next script_feed
+                    (fun _ => true) (fun _ => true) unm true false 100 (rd0 (rsrc0 wit_cte_doc)) [] in
+  o = Ok tt /\ Exists hard (rs_tr u).
+Proof.
+  destruct unm; vm_compute; (split; [reflexivity|]); right; left; reflexivity.
+Qed.
+
+(* an Unmarshal whose OnError epilogue does not return never returns the error *)
+Lemma unmarshal_hang_witness :
+  snd (cbe_unmarshal rsrc (sched_rstep {| rsc_chunk := 0; rsc_faults := [{| f_call := 1; f_dirty := false |}]; rsc_sticky := false |})
+         current_shape (list prim) script_next script_feed (fun _ => true) false false 100
+         (rd0 (rsrc0 wit_cbe_doc)) wit_cbe_script) = Hang.
+Proof. vm_compute. reflexivity. Qed.
+
+(* PassThroughPanics lets the panic out (by design) *)
+Lemma pass_through_witness :
+  snd (cbe_decode rsrc (sched_rstep {| rsc_chunk := 0; rsc_faults := [{| f_call := 1; f_dirty := false |}]; rsc_sticky := false |})
+         current_shape (list prim) script_next script_feed (fun _ => true) true 100
+         (rd0 (rsrc0 wit_cbe_doc)) wit_cbe_script) = Panic.
+Proof. vm_compute. reflexivity. Qed.
+
+(* an unchecked write site would let a failure through: the shape hypothesis is needed *)
+Definition bad_shape : shape := fun s => if site_eqb s WCbeBytes then Unchecked else current_shape s.
+Lemma unchecked_site_witness :
+  snd (marshal wdest (sched_wstep {| wsc_calls := [0]; wsc_limit := None; wsc_sticky := false |}) bad_shape WFcbe false false
+         {| ws_w := wdest0; ws_tr := [] |} [[{| lw_site := LBytes; lw_len := 1 |}]]) = Ok tt.
+Proof. vm_compute. reflexivity. Qed.
+
+(* ------------------------------------------------------------------------- *)
+(* The full property for the current shape, per mechanism, and its refutations *)
+
+Definition read_cbe_full_stmt : Prop :=
+  forall (S : Type) (step : S -> N -> S * rres) (D : Type) (dnext : D -> action) (dfeed : D -> bytes -> D)
+         (dfinal : D -> bool) (unm : bool) (fuel : nat) (s0 : S) (d : D) st' o,
+    (if unm then cbe_unmarshal S step current_shape D dnext dfeed dfinal true false fuel (rd0 s0) d
+     else cbe_decode S step current_shape D dnext dfeed dfinal false fuel (rd0 s0) d) = (st', o) ->
+    Exists hard (rs_tr st') -> o = Err.
+
+Definition read_universal_full_stmt : Prop :=
+  forall (S : Type) (step : S -> N -> S * rres) (D : Type) (dnext : D -> action) (dfeed : D -> bytes -> D)
+         (dfinal : D -> bool) (parse : bytes -> bool) (unm : bool) (fuel : nat) (s0 : S) (d : D) u' o,
+    universal S step current_shape D dnext dfeed dfinal parse unm true false fuel (rd0 s0) d = (u', o) ->
+    Exists hard (rs_tr u') -> o <> Ok tt /\ o <> Panic.
+
+Definition unmarshal_returns_stmt : Prop :=
+  forall (S : Type) (step : S -> N -> S * rres) (D : Type) (dnext : D -> action) (dfeed : D -> bytes -> D)
+         (dfinal : D -> bool) (onerr : bool) (fuel : nat) (s0 : S) (d : D) st' o,
+    cbe_unmarshal S step current_shape D dnext dfeed dfinal onerr false fuel (rd0 s0) d = (st', o) ->
+    Exists hard (rs_tr st') -> o = Err.
+
+Lemma read_cbe_full_refuted : ~ read_cbe_full_stmt.
+Proof.
+  intro H. pose proof cbe_swallow_witness as W. cbv zeta in W.
+  destruct (cbe_decode rsrc (sched_rstep (wit_sched 2)) current_shape (list prim) script_next script_feed
+              (fun _ => true) false 100 (rd0 (rsrc0 wit_cbe_doc)) wit_cbe_script) as [st o] eqn:E.
+  destruct W as [Wo Wh].
+  specialize (H rsrc (sched_rstep (wit_sched 2)) (list prim) script_next script_feed (fun _ => true) false 100%nat
+                (rsrc0 wit_cbe_doc) wit_cbe_script st o E Wh).
+  congruence.
+Qed.
+
+Lemma read_universal_full_refuted : ~ read_universal_full_stmt.
+Proof.
+  intro H. pose proof (universal_cte_swallow_witness false) as W. cbv zeta in W.
+  destruct (universal rsrc (sched_rstep (wit_sched 0)) current_shape (list prim) script_next script_feed
+              (fun _ => true) (fun _ => true) false true false 100 (rd0 (rsrc0 wit_cte_doc)) []) as [u o] eqn:E.
+  destruct W as [Wo Wh].
+  destruct (H rsrc (sched_rstep (wit_sched 0)) (list prim) script_next script_feed (fun _ => true) (fun _ => true) false 100%nat
+              (rsrc0 wit_cte_doc) [] u o E Wh) as [Hn _].
+  exact (Hn Wo).
+Qed.
+
+Lemma unmarshal_returns_refuted : ~ unmarshal_returns_stmt.
+Proof.
+  intro H. pose proof unmarshal_hang_witness as W.
+  set (sc := {| rsc_chunk := 0; rsc_faults := [{| f_call := 1; f_dirty := false |}]; rsc_sticky := false |}) in *.
+  destruct (cbe_unmarshal rsrc (sched_rstep sc) current_shape (list prim) script_next script_feed (fun _ => true) false false 100
+              (rd0 (rsrc0 wit_cbe_doc)) wit_cbe_script) as [st o] eqn:E.
+  cbn [snd] in W. subst o.
+  assert (Hh : Exists hard (rs_tr st)).
+  { assert (Et : st = fst (cbe_unmarshal rsrc (sched_rstep sc) current_shape (list prim) script_next script_feed (fun _ => true) false false 100
+              (rd0 (rsrc0 wit_cbe_doc)) wit_cbe_script)) by (rewrite E; reflexivity).
+    rewrite Et. vm_compute. left. reflexivity. }
+  specialize (H rsrc (sched_rstep sc) (list prim) script_next script_feed (fun _ => true) false 100%nat
+                (rsrc0 wit_cbe_doc) wit_cbe_script st Hang E Hh).
+  discriminate.
+Qed.
+
+Lemma full_refuted : ~ (read_cbe_full_stmt /\ read_universal_full_stmt /\ unmarshal_returns_stmt).
+Proof. intros (H & _ & _). exact (read_cbe_full_refuted H). Qed.
